@@ -242,7 +242,16 @@ func VerifC17_UnpackArchive() {
 	rt.FsStatDirs(true)
 	dest := storage + "/a/b_v1-0-0"
 	tmp := storage + "/tmp/b_v1-0-0"
+	if !rt.Symbolic() && n >= 1 {
+		// natively: an interrupted earlier unpack left a longer file behind
+		_ = os.MkdirAll(tmp, 0o700)
+		_ = os.WriteFile(tmp+"/x", []byte("stale content of an interrupted unpack"), 0o600)
+	}
 	err := res.UnpackArchive()
+	if !rt.Symbolic() && n >= 1 && err == nil && !damaged {
+		data, rerr := os.ReadFile(dest + "/x")
+		rt.Assert(rerr == nil && string(data) == "x", "unpackarchive/entry-files-are-truncated-or-new")
+	}
 	renameIdx, renamedOK := -1, false
 	for i := 0; i < rt.FsLen(); i++ {
 		op, p, p2, ok := rt.FsOp(i), rt.FsPath(i), rt.FsPath2(i), rt.FsOK(i)
@@ -261,6 +270,14 @@ func VerifC17_UnpackArchive() {
 				}
 			}
 			rt.Assert(open == 0, "unpackarchive/files-closed-before-publication")
+		}
+		// files below the temporary directory are written from scratch: whatever a
+		// repeated entry or an interrupted earlier unpack left there is truncated
+		if op == "open" && ok && len(p) > len(tmp) && p[:len(tmp)+1] == tmp+"/" {
+			fl := p2
+			if containsFlag(fl, "wronly") || containsFlag(fl, "rdwr") {
+				rt.Assert(containsFlag(fl, "trunc") || containsFlag(fl, "excl"), "unpackarchive/entry-files-are-truncated-or-new")
+			}
 		}
 		// before the rename nothing creates or writes at or below the destination
 		if renameIdx < 0 && (op == "open" || op == "mkdir" || op == "mkdirall" || op == "write" || op == "chmod") {
@@ -368,4 +385,13 @@ func c17CheckPublish(dest, callerDir string, err error, tag string, chmodAfter b
 	}
 	rt.Assert((err == nil) == renamedOK, tag+"/success-iff-published")
 	_ = c17dir
+}
+
+func containsFlag(flags, name string) bool {
+	for i := 0; i+len(name) <= len(flags); i++ {
+		if flags[i:i+len(name)] == name && (i == 0 || flags[i-1] == ',') && (i+len(name) == len(flags) || flags[i+len(name)] == ',') {
+			return true
+		}
+	}
+	return false
 }
